@@ -1,6 +1,8 @@
 """C03: the clock is only steered on a majority consensus of usable sources.
-Model: coq/Model/Select.v (+ the controller step of coq/Model/MsgLoop.v); theorems: coq/Props/C03.v;
-tie: select::select through harness/ntp-proto/c03.rs (the controller-level tie is C37's harness)."""
+Model: coq/Model/Select.v (+ the controller and the wrapper's loop with its timer, coq/Model/MsgLoop.v);
+theorems: coq/Props/C03.v; tie: select::select through harness/ntp-proto/c03.rs, and the controller level
+(real TimeSyncControllerWrapper::run with its sleeper, real KalmanClockController incl. time_update) through
+the lines starting with L of the same harness, which are run by harness/ntp-proto/c37.rs (shared with C37)."""
 import itertools
 import json
 import math
@@ -8,6 +10,7 @@ import os
 import struct
 
 from tools import vplib
+from tools.props import c37 as loop
 
 NAN = float("nan")
 INF = float("inf")
@@ -258,10 +261,79 @@ def small_exhaustive(ncand, minags):
             yield mk(m, list(combo), maxunc=0.25)
 
 
+# ------------------------------------------------------------------ controller level (message loop + timer)
+
+def loop_monitor(case, out):
+    """the property on one run of the real loop: clock calls only while handling a source message on a consensus
+    (whose used sources were registered, last reported usable and had a snapshot), or -- one set_frequency -- when
+    the timer expires after such a consensus update armed it"""
+    return loop.monitor(case, out, map_check=False)
+
+
+def loop_cases(rng, tier):
+    cases = loop.timer_fixed_cases()
+    n = 400 if tier == "quick" else 3000
+    for _ in range(n):
+        cases.append(loop.gen_case(rng, tier, steer=2, illformed=rng.random() < 0.2, timer=True))
+    for _ in range(n // 4):
+        cases.append(loop.gen_case(rng, tier, steer=0, illformed=rng.random() < 0.2, timer=True))
+    for _ in range(n // 4):
+        cases.append(loop.gen_case(rng, tier, steer=1, illformed=rng.random() < 0.2, timer=True))
+    return cases
+
+
+def controller_level(c, rng, only=None):
+    cases = only if only is not None else loop_cases(rng, c.tier)
+    stats = loop.new_stats()
+    stats["total"] = len(cases)
+
+    def nontrivial(case, out):
+        p = loop.parse_out(case, out)
+        if p is None:
+            return False
+        steps = [st for o in p[2] for st in o["steps"]]
+        return any(st[0] == 1 for st in steps) or sum(1 for st in steps if st[1]) >= 2
+
+    vplib.correspondence(
+        c, "ntp-proto", cases,
+        line_of=lambda case: "L " + loop.line_of(case),
+        coq_case_of=loop.make_coq_case(stats),
+        preamble="From V Require Import Model.Select Model.MsgLoop.\n",
+        checker="mismatches list_eqb msgloop_code",
+        monitor=loop_monitor,
+        nontrivial=nontrivial,
+        shard=300,
+        corr_name="correspondence C03 model MsgLoop (controller + timer) <-> ntp-proto harness (real run loop)",
+        sample_of=lambda case, out: {"harness_line": ("L " + loop.line_of(case))[:400], "implementation": " ".join(out)[:400]},
+    )
+    c.cov["distribution_controller_level"] = stats
+    c.cov["rule_controller_level"] = (
+        "whole schedules through the real TimeSyncControllerWrapper::run (current-thread tokio runtime, paused clock) around "
+        "the real KalmanClockController with a recording clock: interleavings of 1-5 source tasks with T = virtual time "
+        "passes beyond any armed deadline of the wrapper's sleeper (the real loop calls the real time_update iff the sleeper "
+        "is enabled); never-step steering configuration (every offset correction is a slew that arms the timer), no-steering "
+        "and default configurations; per drain compared with the model: clock calls, used sources, source map, "
+        "desired_freq != 0, number of updates returning next_update; the outcome of the float comparisons of each steering "
+        "decision is read off the run (oracle tape). Default configuration (steps): monitor only. Non-trivial: a timer "
+        "expiry that called time_update, or two consensus updates.")
+    c.assumptions += [
+        "controller level: hand-written model coq/Model/MsgLoop.v of TimeSyncControllerWrapper::run (message branch, "
+        "single-shot sleeper, timer branch) and KalmanClockController (source_message/update_clock/steer_offset/"
+        "steer_frequency/change_desired_frequency/time_update); the float comparisons of a steering decision are oracles; "
+        "the rewriting of stored snapshots by steering is not modelled; tokio's paused clock stands for real time",
+    ]
+
+
 def main():
     c = vplib.Check("C03")
     c.run_gate()
     rng = c.rng
+    rp = vplib.replay_cases()
+    if rp and "ops" in rp[0]:
+        for k in rp:
+            k["ops"] = [tuple(o) for o in k["ops"]]
+        controller_level(c, rng, only=rp)
+        return c.finish()
     cases = []
     # corpus first
     cdir = os.path.join(vplib.VERIF, "corpus", "C03")
@@ -374,6 +446,9 @@ def main():
                             "evaluation of radius/offset-radius/offset+radius" % stats["key_mismatch"])
     stats["n_candidates_hist"] = dict(sorted(stats["n_candidates_hist"].items()))
     c.cov["distribution"] = stats
+    c.cov["model_cases_select"] = c.cov.get("model_cases")
+    c.cov["model_mismatches_select"] = c.cov.get("model_mismatches")
+    controller_level(c, rng)
     c.assumptions += [
         "model of select written by hand (coq/Model/Select.v), integer-only over f64::total_cmp keys; the float expressions "
         "radius = offset_uncertainty*w1 + delay*w2 and offset -/+ radius are evaluated by the harness with the "
@@ -394,16 +469,34 @@ MANIFEST = {
             "(C03_voters_are_the_qualifying_nonperiodic); every returned snapshot is a candidate, synchronised, radius <= limit and "
             "not NaN (C03_members_qualify); unsynchronised/too uncertain candidates can be deleted from the input without changing "
             "the result (C03_unqualified_irrelevant); the sweep never underflows and assert_eq!(maxlow,maxhigh) cannot fail "
-            "(C03_sweep_balanced, C03_select_never_panics). Controller level (model MsgLoop, every world and schedule): select's "
-            "argument is exactly the snapshots of registered sources last reported usable (C03_only_usable); a handled message makes "
-            "clock calls only when select returned a non-empty selection, which is what is reported as used "
-            "(C03_steer_only_on_consensus_partial). Tie: select through the harness on boundary/malformed/exhaustive-small/random "
-            "lists on every run; controller level through C37's harness.",
-    "note": "Partial: the wrapper's timer path (time_update ending a slew) is not modelled (hence _partial). Trusted: Coq "
-            "kernel+vm_compute; hand-written models Select.v/MsgLoop.v; release semantics (usize wraps); the float expressions "
-            "radius/offset-+radius are evaluated by the harness with the code's accessors (text pinned by Gen/ConstSelect.v, "
-            "cross-checked in Python doubles) rather than modelled; lo <= hi (radius not negative) is a hypothesis: with negative "
-            "range weights in the configuration (unvalidated) the release build wraps `cur -= 1` and the consensus guarantee is void "
-            "(observation, outside the property's domain); slice::sort_by stable. Print Assumptions: closed under the global context.",
+            "(C03_sweep_balanced, C03_select_never_panics). Controller level (model MsgLoop: KalmanClockController and the "
+            "loop of TimeSyncControllerWrapper::run with its single-shot timer; every world = every selection function, every "
+            "outcome of the float comparisons of every steering decision, every vote; every schedule of messages and timer "
+            "expiries): select's argument is exactly the snapshots of registered sources last reported usable (C03_only_usable, "
+            "C03_only_usable_with_timer); a handled message makes clock calls only when select returned a non-empty selection, "
+            "which is what is reported as used (C03_message_calls_need_consensus); for the whole loop "
+            "(C03_steer_only_on_consensus, no longer partial): if handling the next event after any schedule makes a clock "
+            "call, then either it is a source message on a non-empty selection, or it is the timer expiry (time_update), the "
+            "only call is one set_frequency, nothing is reported as used, the timer is not re-armed, desired_freq was non-zero "
+            "and is zero afterwards, and the schedule contains an earlier source message, with no timer expiry in between, "
+            "handled on a non-empty selection, whose handling called set_frequency, turned desired_freq from zero to non-zero "
+            "and returned next_update = Some (the slew that this expiry ends was started under a consensus); "
+            "C03_loop_step_calls: the same case split for one loop step from any state (timer expiry with a disabled timer "
+            "does nothing). Tie: select through the harness on boundary/malformed/exhaustive-small/random lists; the "
+            "controller level on every run through the real run loop (paused tokio clock, virtual time passing = T) around the "
+            "real KalmanClockController incl. the real time_update, recording clock, scripted per-source filter.",
+    "note": "Trusted: Coq kernel+vm_compute; hand-written models Select.v/MsgLoop.v; release semantics (usize wraps); the float "
+            "expressions radius/offset-+radius are evaluated by the harness with the code's accessors (text pinned by "
+            "Gen/ConstSelect.v, cross-checked in Python doubles) rather than modelled; lo <= hi (radius not negative) is a "
+            "hypothesis: with negative range weights in the configuration (unvalidated) the release build wraps `cur -= 1` and "
+            "the consensus guarantee is void (observation, outside the property's domain); slice::sort_by stable. Controller "
+            "level: the float comparisons of the steering decision (offset/step/frequency thresholds) are oracles of the "
+            "model (in the correspondence read off the implementation's run); the rewriting of the stored snapshots' float "
+            "state and filter time by steering (process_offset_steering/process_frequency_steering, also from time_update) is "
+            "not modelled (snapshots are identity + filter time + interval keys), so runs with clock steps are judged by the "
+            "monitor only; check_offset_steer's process::exit is not modelled; 'desired_freq != 0 after a returning slew start' "
+            "is read from the code (freq > 0 or Duration::from_secs_f64 panics) and compared on every run; tokio mpsc FIFO + "
+            "controller mutex, select! fairness irrelevant under the paused clock; the harness module c37.rs is shared with "
+            "C37. Print Assumptions: closed under the global context.",
     "design_ref": "DESIGN.md 3 C03",
 }
